@@ -19,6 +19,7 @@ import shutil
 import subprocess
 import sys
 import tempfile
+import re
 import time
 from pathlib import Path
 
@@ -491,7 +492,34 @@ def run_case(case):
             r = comp().compile(with_sourcemap=True, teal_filename="c15.teal", annotate_teal=a["annotate"],
                                annotate_teal_headers=a["headers"], annotate_teal_concise=a["concise"])
             return {"annotate": a, "teal": [r.teal], "maps": [dump_map(r.sourcemap)]}
+        def reuse(a):
+            ast = case["build"]()
+            def c():
+                return pt.Compilation(ast, getattr(pt.Mode, cfg["mode"]), version=cfg["version"],
+                                      assemble_constants=cfg["assemble_constants"], optimize=opt())
+            first = c().compile(with_sourcemap=False).teal
+            r = c().compile(with_sourcemap=True, teal_filename="c15.teal", annotate_teal=a["annotate"],
+                            annotate_teal_headers=a["headers"], annotate_teal_concise=a["concise"])
+            ast2 = case["build"]()
+            def c2():
+                return pt.Compilation(ast2, getattr(pt.Mode, cfg["mode"]), version=cfg["version"],
+                                      assemble_constants=cfg["assemble_constants"], optimize=opt())
+            c2().compile(with_sourcemap=False)
+            twice = c2().compile(with_sourcemap=False).teal
+            return {"annotate": a, "teal": [r.teal], "maps": [dump_map(r.sourcemap)], "first": [first], "plain_twice": [twice]}
     else:
+        def reuse(a):
+            router = case["build"]()
+            kw = dict(version=cfg["version"], assemble_constants=cfg["assemble_constants"], optimize=opt())
+            f = router.compile(**kw)
+            r = router.compile(with_sourcemaps=True, annotate_teal=a["annotate"], annotate_teal_headers=a["headers"],
+                               annotate_teal_concise=a["concise"], **kw)
+            router2 = case["build"]()
+            router2.compile(**kw)
+            t = router2.compile(**kw)
+            return {"annotate": a, "teal": [r.approval_teal, r.clear_teal],
+                    "maps": [dump_map(r.approval_sourcemap), dump_map(r.clear_sourcemap)],
+                    "first": [f.approval_teal, f.clear_teal], "plain_twice": [t.approval_teal, t.clear_teal]}
         def rcomp(**kw):
             return case["build"]().compile(version=cfg["version"], assemble_constants=cfg["assemble_constants"],
                                            optimize=opt(), **kw)
@@ -519,6 +547,12 @@ def run_case(case):
                 out["runs"].append(mapped(a))
             except Exception as e:
                 out["runs"].append({"annotate": a, "error": err(e)})
+        # the same object compiled first without and then with a source map
+        a = dict(ANNOTATE[0], same_object_after_plain=True)
+        try:
+            out["runs"].append(reuse(a))
+        except Exception as e:
+            out["runs"].append({"annotate": a, "error": err(e)})
     else:
         try:
             mapped({"annotate": False, "headers": False, "concise": True})
@@ -799,14 +833,34 @@ class Project:
         if self.shape == "router":
             main.emit("")
             main.emit("def build_router():")
+            bare_sub = r.random() < 0.5
+            self.bare_sub = bare_sub
+            if bare_sub:
+                # the bare-call action is itself a subroutine holding scratch variables: the router generates the call
+                self.stats["shape_router_bare_subroutine"] += 1
+                main.emit("@pt.Subroutine(pt.TealType.none)", 1)
+                main.emit("def bare_create():", 1)
+                main.emit("bv0 = pt.ScratchVar(pt.TealType.uint64)", 2)
+                main.emit("bv1 = pt.ScratchVar(pt.TealType.uint64)", 2)
+                main.emit("return pt.Seq(", 2)
+                src, _ = g.marker(main, len(main.lines) + 1, "int")
+                main.emit(f"bv0.store({src}),", 3)
+                main.emit("bv1.store(bv0.load() + pt.Int(1)),", 3)
+                g.stmts(main, 3, 1, 2)
+                main.emit("pt.Pop(bv0.load() + bv1.load()),", 3)
+                main.emit(")", 2)
+                main.emit("")
             main.emit("router = pt.Router(", 1)
             main.emit('"c15",', 2)
             main.emit("pt.BareCallActions(", 2)
             main.emit("no_op=pt.OnCompleteAction.create_only(", 3)
-            main.emit("pt.Seq(", 4)
-            g.stmts(main, 5, 1, 2)
-            main.emit("pt.Approve(),", 5)
-            main.emit(")", 4)
+            if bare_sub:
+                main.emit("bare_create", 4)
+            else:
+                main.emit("pt.Seq(", 4)
+                g.stmts(main, 5, 1, 2)
+                main.emit("pt.Approve(),", 5)
+                main.emit(")", 4)
             main.emit("),", 3)
             main.emit("),", 2)
             main.emit("clear_state=pt.Seq(", 2)
@@ -919,6 +973,28 @@ def marker_of_teal_line(line: str, markers: dict):
     return None
 
 
+_SLOT_OP = re.compile(r"^(load|store) (\d+)$")
+
+
+def same_modulo_slots(a: list, b: list) -> bool:
+    """the programs differ, and only by a one-to-one renumbering of the slots named by load/store"""
+    if a == b or len(a) != len(b):
+        return False
+    for ta, tb in zip(a, b):
+        la, lb = ta.split("\n"), tb.split("\n")
+        if len(la) != len(lb):
+            return False
+        fwd, bwd = {}, {}
+        for x, y in zip(la, lb):
+            mx, my = _SLOT_OP.match(x), _SLOT_OP.match(y)
+            if mx and my and mx.group(1) == my.group(1):
+                if fwd.setdefault(mx.group(2), my.group(2)) != my.group(2) or bwd.setdefault(my.group(2), mx.group(2)) != mx.group(2):
+                    return False
+            elif x != y:
+                return False
+    return True
+
+
 def analyse(rep: Report, d: Driver, proj: Project, wd: Path, on: dict, off: dict, stats: dict, replay: dict):
     """all C15 checks on one generated project; returns nothing, reports through `rep`"""
     from algosdk.source_map import SourceMap as AlgoSM
@@ -950,7 +1026,12 @@ def analyse(rep: Report, d: Driver, proj: Project, wd: Path, on: dict, off: dict
                              ("gate-off compileTeal", oc["plain_compileTeal"])):
             stats["teal_identity_checks"] += 1
             if other != plain:
-                viol(f"{tag}: TEAL differs between with_sourcemap=False (gate on) and {label}", case=case["name"])
+                # listed finding: with the feature on, the router re-frames the ASTs it generates and thereby evaluates the body of a
+                # subroutine given as a bare-call action earlier than the compiler would, which renumbers the slots
+                key = ("C15-feature-gate-renumbers-slots-router-bare-subroutine"
+                       if label.startswith("gate-off") and case["kind"] == "router" and getattr(proj, "bare_sub", False)
+                       and same_modulo_slots(plain, other) else None)
+                viol(f"{tag}: TEAL differs between with_sourcemap=False (gate on) and {label}", key=key, case=case["name"])
         for run in case["runs"]:
             a = run["annotate"]
             atag = f"{tag} annotate={a}"
@@ -959,9 +1040,15 @@ def analyse(rep: Report, d: Driver, proj: Project, wd: Path, on: dict, off: dict
                 continue
             stats["diff_compilations_with_map"] += 1
             stats["teal_identity_checks"] += 1
-            if run["teal"] != plain:
-                viol(f"{atag}: TEAL with source map differs from TEAL without", case=case["name"])
-                continue
+            # the reference: the same history without the request (a second compilation of one object is compared with a second
+            # plain compilation of a twin object; what a repeated compilation does to the program is C11's subject, not C15's)
+            ref = run.get("plain_twice", plain)
+            if run["teal"] != ref:
+                key = ("C15-second-compilation-with-map-renumbers-slots-router"
+                       if a.get("same_object_after_plain") and case["kind"] == "router" and same_modulo_slots(ref, run["teal"]) else None)
+                viol(f"{atag}: TEAL with source map differs from TEAL without", key=key, case=case["name"])
+                if key is None:
+                    continue
             for pi, (teal, mp) in enumerate(zip(run["teal"], run["maps"])):
                 lines = teal.split("\n")
                 n = len(lines)
